@@ -113,9 +113,18 @@ def _legacy_specs():
 
 _legacy_specs()
 T_SEQ_LEG = ('SEQ', (('k', INT, 'R', None), ('l', U.I(2, T_SEQOF_LEG), 'O', None), ('m', T_SEQOF_LEG2, 'O', None)))
+# untagged CHOICE components that the decoder finds through a tag map (SET member; behind an OPTIONAL; nested)
+_CH2 = ('CHOICE', (('i', T_SV), ('s', U.I(3, T_OCTS))))
+T_SET_CH = ('SET', (('c', _CH2, 'R', None), ('b', BOOL, 'R', None)))
+T_SEQ_OPT_CH = ('SEQ', (('o', U.I(7, INT), 'O', None), ('c', _CH2, 'R', None)))
+T_CH_CH = ('CHOICE', (('n', _CH2), ('z', U.I(9, BOOL))))
+# WITH COMPONENTS {..., b (1..10) PRESENT}: presence combined with a value constraint on the component
+T_WCV = CON(('WC', ('b', 'P', ('VR', 1, 10))), ('SEQ', (('a', INT, 'R', None), ('b', U.I(1, INT), 'O', None))))
+T_WCV2 = CON(('WC', ('x', 'P', ('SV', 1, 3)), ('y', 'A')), ('SET', (('x', INT, 'O', None), ('y', U.I(1, BOOL), 'O', None), ('z', U.I(2, OCTS), 'O', None))))
 T_BITS5 = CON(('SZ', 1, 5), BITS)
 T_SEQ_BITS = ('SEQ', (('f', CON(('SZ', 9, 12), U.I(4, BITS)), 'R', None), ('g', T_BITS5, 'O', None)))
-TYPES = [('seqof-legacy-size', T_SEQOF_LEG), ('setof-legacy-size', T_SETOF_LEG), ('seqof-legacy-ctor', T_SEQOF_LEG2),
+TYPES = [('set-choice', T_SET_CH), ('seq-opt-choice', T_SEQ_OPT_CH), ('choice-choice', T_CH_CH), ('wc-value-present', T_WCV),
+         ('wc-value-present-set', T_WCV2), ('seqof-legacy-size', T_SEQOF_LEG), ('setof-legacy-size', T_SETOF_LEG), ('seqof-legacy-ctor', T_SEQOF_LEG2),
          ('seq-legacy', T_SEQ_LEG), ('bits-size', T_BITS5), ('seq-bits-size', T_SEQ_BITS), ('int-except2', T_EXC2), ('int-union3', T_OR3), ('int-not', T_NOT), ('seq-except', T_SEQ_EXC),
          ('open-wc-absent', T_OPEN_WCA), ('open-wc-present', T_OPEN_WCP), ('int-range', T_INT), ('int-sv', T_SV), ('octs-size', T_OCTS), ('utf8-size-alpha', T_UTF8),
          ('seqof-size', T_SEQOF), ('setof-size', T_SETOF), ('seq', T_SEQ), ('set', T_SET), ('set2', T_SET2), ('wc-absent', T_WC),
